@@ -170,7 +170,7 @@ func runHist(ci interface{}, s *vkit.Stats) (err error) {
 			b = mocker.Create()
 			dropped = true
 			vkit.GC()
-			vkit.ChurnSmall(40000)
+			vkit.ChurnSmall(15000)
 			vkit.GC()
 			afterGC = true
 			s.Class("builder-dropped-then-gc")
@@ -315,7 +315,7 @@ func TestVerifC01(t *testing.T) {
 			return &histCase{Ops: ops}
 		},
 		Run: runHist}
-	s := p.Main(t, vkit.Scale(2500, 20000))
+	s := p.Main(t, vkit.Scale(2500, 5000))
 	if !vkit.Replaying() {
 		s.Note("corpus seed %d, %d functions", corpus.Seed, len(corpus.Fns))
 		s.Done()
